@@ -44,7 +44,7 @@ TRUSTED = ["Python's regex engine (module re: term_re.finditer, equation_re.sear
            'str.splitlines / str.strip / int() / str.format of CPython are modelled by hand (PyStr.v, ParseEq.py_int, Format.v) and validated the same way',
            'extraction of the parser model to OCaml (ExtrOcamlBasic + ExtrOcamlString only) and coq/Extract/Parser/driver.ml',
            'harness/parser_common.py (encoders, driver runner)', "CPython's compile() as the syntax-check oracle (tabulated per generated statement)"]
-ASSUMPTIONS = ['input strings are Latin-1 (code points 0..255)',
+ASSUMPTIONS = ['the MODEL (and K) cover Latin-1 input strings (code points 0..255); scripts with other characters (U+2028 separates statements, fullwidth / Arabic-Indic digits are indexes, U+3000 is leading whitespace) are judged by the oracle only',
                "CPython's int() digit limit is the default sys.get_int_max_str_digits() = 4300 (ParseEq.int_max_str_digits; boundary cases 4300/4301 in the corpus)",
                'str.format fields with attribute / index / format-spec / conversion parts are outside the model (PUnmodelled; K skips them, 69 of the 837 930 strings up to length 4)',
                'the oracle chk stands for compile(): theorems hold for every chk; side-effect freedom has two halves: in the MODEL the only call out is '
@@ -54,7 +54,7 @@ ASSUMPTIONS = ['input strings are Latin-1 (code points 0..255)',
                'warnings filters / parser globals, and the state-between-calls clause (re-parse after the caller emptied earlier results)',
                'build_model / instantiation are observed on the real code only (not modelled here)']
 EXHAUSTIVE = {'quick': True, 'thorough': True}
-CASE_TIMEOUT = 90
+CASE_TIMEOUT = 300
 HANDLES_TIMEOUT = True
 
 OWN = ('ParserError', 'SymbolError', 'IndentationError')
@@ -132,23 +132,37 @@ def expected_statements(s):
 IDENT = re.compile(r'[A-Za-z_][A-Za-z_0-9]*')
 
 
-def in_finding_class(s):
-    """Syntactic membership in the guard class of a kept finding (the model mirrors a defect there: a K disagreement
-    confined to such inputs is not reported, so that a later repair of the defect raises no alarm)."""
-    texts, unclosed, reasons = _expected(s)
-    if 'fence-in-brackets' in reasons or 'fence-line-trailing-text' in reasons:      # the two shapes of the ValueError finding
+def model_finding_class(strings):
+    """EXACT membership in the class of a kept finding, decided by the model (which mirrors the defects): the model answers
+    ValueError (the '='-less statement accepted through the fence alternative), or it accepts with a number of emitted
+    equations / blocks different from its number of statements (duplicate statements, several left-hand names — exact by
+    C13_statement_count_iff).  A K disagreement is tolerated only there (so that a later repair of the defect raises no alarm)."""
+    strings = list(strings)
+    if not strings:
+        return []
+    out = []
+    P, e1 = pc.run_driver(['P ' + pc.hx(x) for x in strings])
+    S, e2 = pc.run_driver(['S ' + pc.hx(x) for x in strings])
+    N, e3 = pc.run_driver(['N ' + pc.hx(x) for x in strings])
+    if e1 or e2 or e3:
+        return [False] * len(strings)
+    for p_, s_, n_ in zip(P, S, N):
+        if p_ == 'E:ValueError':
+            out.append(True)
+        elif p_.startswith('O:') and n_.isdigit():
+            body = s_[2:].rsplit('|', 1)[0]
+            out.append(int(n_) != len([x for x in body.split(';') if x]))
+        else:
+            out.append(False)
+    return out
+
+
+def latin1(s):
+    try:
+        s.encode('latin-1')
         return True
-    norm = [re.sub(r'\s+', '', t) for t in texts if not t.startswith('`')]     # verbatim blocks are never merged
-    if len(set(norm)) < len(norm):
-        return True
-    for t in texts:
-        if t.startswith('`'):
-            continue
-        lhs = t.split('=', 1)[0]
-        names = IDENT.findall(lhs)
-        if len(names) >= 2:
-            return True
-    return False
+    except UnicodeEncodeError:
+        return False
 
 
 def lex_finding_class(s):
@@ -212,22 +226,44 @@ def _with_cause(e):
 _BASE_FILTERS = []
 
 
+def _build_cause(emitted_syms):
+    """minimal discriminator of WHY embedding compiling code into the class body fails, so that the known findings do not
+    mask a different regression of the same exception shape"""
+    codes = [x.code or '' for x in emitted_syms]
+    if any(re.search(r'\bimport\s*\*', c) for c in codes):
+        return 'import-star'
+    if any(re.search(r'\\\r?\n', c) for c in codes):
+        return 'backslash-continuation'
+    if any(re.search(r'^\s*(return|yield|await|nonlocal)\b', c, re.M) for c in codes):
+        return 'statement-only-legal-elsewhere'
+    return 'other'
+
+
+_RESERVED = []
+
+
+def _reserved_names():
+    """names an instantiated model object already uses for itself (attributes and storage keys), from a trivial reference model"""
+    if not _RESERVED:
+        import fsic
+        ref = fsic.build_model(fsic.parse_model('Zq9_ = Xq9_'))(range(3))
+        own = set(ref.__dict__) | set(ref.__dict__.get('_attributes', [])) | set(dir(type(ref)))
+        own |= {k[1:] for k in own if k.startswith('_')}
+        _RESERVED.append(own - {'Zq9_', 'Xq9_', '_Zq9_', '_Xq9_'})
+    return _RESERVED[0]
+
+
+def _inst_cause(syms):
+    reserved = _reserved_names()
+    names = [x.name for x in syms if x.name is not None and x.type.name not in ('FUNCTION', 'KEYWORD')]
+    return 'reserved-name' if any(n in reserved for n in names) else 'other'
+
+
 def _globals_fp():
-    """fingerprint of the module globals of every loaded fsic module: names, value types, sizes of containers, identity of
-    everything else (a cache that grows, a rebound global, a new name all change it)"""
-    out = []
-    for name in sorted(m for m in sys.modules if m == 'fsic' or m.startswith('fsic.')):
-        mod = sys.modules.get(name)
-        if mod is None:
-            continue
-        for k, v in sorted(vars(mod).items()):
-            if k.startswith('__'):
-                continue
-            if isinstance(v, (dict, list, set, frozenset, tuple, str, bytes)):
-                out.append((name, k, type(v).__name__, len(v)))
-            else:
-                out.append((name, k, type(v).__name__, id(v)))
-    return tuple(out)
+    """the NAMES bound in fsic.parser (a new or deleted module global is an effect; caches that grow, lazily imported
+    modules and rebinding of private helpers are not judged — the state-between-calls clause judges behaviour instead)"""
+    mod = sys.modules.get('fsic.parser')
+    return frozenset(k for k in vars(mod) if not k.startswith('__')) if mod is not None else frozenset()
 
 
 def _open_fds():
@@ -247,38 +283,38 @@ def _reset_process_state():
 
 
 def _snapshot():
+    """process-global state the property speaks about ("no effect outside the returned objects"): files, environment,
+    working directory, builtins, warnings configuration, interpreter settings, names of the parser module's globals"""
     import builtins
     import warnings
     import fsic
-    return (frozenset(sys.modules), frozenset(os.listdir('.')), frozenset(vars(builtins)), tuple(sorted(os.environ.items())),
-            tuple(repr(f) for f in warnings.filters), repr(fsic.parser.replacement_function_names), fsic.parser.term_re.pattern,
-            fsic.parser.equation_re.pattern, os.getcwd(), _globals_fp(), _open_fds(), sys.getrecursionlimit(),
-            tuple(sys.path), id(warnings.showwarning))
+    return (frozenset(os.listdir('.')), frozenset(vars(builtins)), tuple(sorted(os.environ.items())),
+            tuple(repr(f) for f in warnings.filters), repr(getattr(fsic.parser, 'replacement_function_names', None)),
+            getattr(getattr(fsic.parser, 'term_re', None), 'pattern', None), getattr(getattr(fsic.parser, 'equation_re', None), 'pattern', None),
+            os.getcwd(), _globals_fp(), _open_fds(), sys.getrecursionlimit(), tuple(sys.path))
 
 
 def _classify_count(s, texts, emitted, unclosed):
-    """why the number of emitted equations differs from the number of statements (observations of the real parser only)"""
+    """why the number of emitted equations differs from the number of statements (observations of the real parser only).
+    The two kept findings explain a difference EXACTLY when the number emitted equals (distinct names given an equation
+    by some statement) + (verbatim statements) — the unguarded count theorem; anything else is a genuine drop / extra."""
     import fsic
-    per = []
+    names, several, verb = [], False, 0
     for t in texts:
         try:
             syms = fsic.parser.parse_equation(t)
         except BaseException:       # noqa: BLE001
-            per.append(None)
-            continue
-        em = [(x.name, x.equation) for x in syms if x.type.name in ('ENDOGENOUS', 'VERBATIM') and x.equation is not None and x.code is not None]
-        fn = [x.name for x in syms if x.type.name == 'FUNCTION']
-        per.append((em, fn, t))
-    seen = set()
-    for p in per:
-        if p:
-            for pair in p[0]:
-                if pair[0] is not None and pair in seen:
-                    return 'duplicate-statement'
-                seen.add(pair)
-    for p in per:
-        if p and len(p[0]) >= 2:
+            return 'dropped' if emitted < len(texts) else 'extra'
+        em = [x.name for x in syms if x.type.name in ('ENDOGENOUS', 'VERBATIM') and x.equation is not None and x.code is not None]
+        verb += sum(1 for n in em if n is None)
+        named = [n for n in em if n is not None]
+        several = several or len(named) >= 2
+        names += named
+    if emitted == len(set(names)) + verb:
+        if several:
             return 'several-lhs-names'
+        if len(set(names)) < len(names):
+            return 'duplicate-statement'
     return 'dropped' if emitted < len(texts) else 'extra'
 
 
@@ -289,6 +325,8 @@ def lex_line(s):
     """fsic.parser.term_re.finditer(s) in the format of the driver's T command: start,end,KIND,hex(name),index"""
     import fsic
     out = []
+    if not hasattr(fsic.parser, 'term_re'):
+        return None                     # regex renamed / reorganised: the component check is skipped, not failed
     for m in fsic.parser.term_re.finditer(s):
         gd = m.groupdict()
         key = next((k for k in _LEX_KEYS if gd.get(k) is not None), None)
@@ -298,6 +336,8 @@ def lex_line(s):
 
 def eqre_line(s):
     import fsic
+    if not hasattr(fsic.parser, 'equation_re'):
+        return None
     return '1' if fsic.parser.equation_re.search(s) is not None else '0'
 
 
@@ -345,11 +385,12 @@ def observe(s, light=False):
     import fsic
     _install()
     o = {}
+    h0 = _Canary.hits          # before ANY call into fsic for this script: every path below runs under the canary
     if not light:
         # the components, for the component-level correspondences K_lex / K_eqre / K_split
-        o['lex'] = lex_line(s)
-        o['eqre'] = eqre_line(s)
-        o['split'] = split_line(s)
+        for key, val in (('lex', lex_line(s)), ('eqre', eqre_line(s)), ('split', split_line(s))):
+            if val is not None:
+                o[key] = val
         ml = lines_line(s)
         if ml is not None:
             o['mlines'] = ml
@@ -390,14 +431,15 @@ def observe(s, light=False):
             o['history'] = line
         elif pc.real_line(s, False) != o['nc']:
             o['history'] = 'third parse differs'
-    # (2) the default call, under the canary
-    h0 = _Canary.hits
+    # (2) the default call
     try:
         syms = fsic.parse_model(s)
         o['cs'] = 'ok'
     except BaseException as e:      # noqa: BLE001
         syms = None
         o['cs'] = type(e).__name__
+        if isinstance(e, SyntaxError) and getattr(e, 'filename', None) is not None:
+            o['cs'] = type(e).__name__ + '-from-compile'      # not the parser's own IndentationError
         if o['cs'] not in OWN:
             o['cs_site'] = _site(e)
     if syms is not None:
@@ -427,12 +469,12 @@ def observe(s, light=False):
                 # does every generated code string compile on its own?  (yes: the defect is in how build_model embeds the code;
                 # no: the syntax check of parse_model let a statement through that does not compile)
                 ok = all(pc.compile_outcome(x.code)[0] == 'ok' for x in emitted_syms)
-                o['standalone'] = 'standalone-ok' if ok else 'standalone-fails'
+                o['standalone'] = ('standalone-ok' if ok else 'standalone-fails') + '|' + _build_cause(emitted_syms)
             if M is not None:
                 try:
                     M(range(3))
                 except BaseException as e:  # noqa: BLE001
-                    o['inst'] = type(e).__name__
+                    o['inst'] = type(e).__name__ + '|' + _inst_cause(syms)
     if _Canary.hits != h0:
         o['canary'] = _Canary.hits - h0
     return o
@@ -465,6 +507,53 @@ def judge(s, o):
     return out
 
 
+# --------------------------------------------------------------------------- clause (a): time must scale with the size of the script
+SCALE_FAMILIES = {
+    'bracketed-lines': lambda k: '\n'.join(['(x y' + '=y' * k + ' z'] * k) + ')z' * k,
+    'long-identifier': lambda n: 'Y = ' + 'a' * n,
+    'dotted-name': lambda n: 'Y = a' + '.b' * n,
+    'many-statements': lambda n: '\n'.join('Y%d = X%d + 1' % (i, i) for i in range(n)),
+    'long-sum': lambda n: 'Y = ' + ' + '.join('X%d' % i for i in range(n)),
+    'long-bracket-statement': lambda n: 'Y = (' + ' +\n   '.join('X%d' % i for i in range(n)) + ')',
+    'long-fence': lambda n: '```\n' + '\n'.join('x%d = %d' % (i, i) for i in range(n)) + '\n```',
+    'many-blank-lines': lambda n: 'Y = X' + '\n' * n + 'Z = W',
+    'long-comment': lambda n: 'Y = X  # ' + 'c' * n,
+    'many-parameters': lambda n: 'Y = ' + ' + '.join('{p%d}' % i for i in range(n)),
+    'long-number': lambda n: 'Y = ' + '1' * n,
+    'spaces-before-eq': lambda n: 'Y' + ' ' * n + '= X',
+}
+SCALE_SIZES = {'bracketed-lines': (25, 50), 'long-identifier': (3000, 6000), 'dotted-name': (1500, 3000), 'many-statements': (300, 600),
+               'long-sum': (1500, 3000), 'long-bracket-statement': (400, 800), 'long-fence': (1000, 2000), 'many-blank-lines': (20000, 40000),
+               'long-comment': (50000, 100000), 'many-parameters': (800, 1600), 'long-number': (5000, 10000), 'spaces-before-eq': (3000, 6000)}
+SCALE_MIN_T = 0.1       # seconds of CPU below which a growth exponent is noise
+SCALE_MAX_EXP = 1.6     # linear is 1, quadratic 2
+
+
+def _cpu(s):
+    import time
+    import fsic
+    best = None
+    for _ in range(2):
+        t0 = time.process_time()
+        try:
+            fsic.parse_model(s, check_syntax=False)
+        except BaseException:       # noqa: BLE001
+            pass
+        dt = time.process_time() - t0
+        best = dt if best is None else min(best, dt)
+    return best
+
+
+def impl_scale(case):
+    import math
+    f = SCALE_FAMILIES[case['family']]
+    s1, s2 = f(case['n1']), f(case['n2'])
+    t1, t2 = _cpu(s1), _cpu(s2)
+    exp_ = math.log(max(t2, 1e-6) / max(t1, 1e-6)) / math.log(len(s2) / len(s1))
+    return {'len1': len(s1), 'len2': len(s2), 't2_ms': int(t2 * 1000), 'superlinear': bool(t2 >= SCALE_MIN_T and exp_ > SCALE_MAX_EXP),
+            'exponent_x10': int(round(exp_ * 10)) if t2 >= SCALE_MIN_T else None}
+
+
 def _enum_strings(case):
     k = case['len'] - len(case['prefix'])
     if k < 0:
@@ -478,6 +567,8 @@ def impl(case):
     import hashlib
     _install()
     _reset_process_state()
+    if case['k'] == 'scale':
+        return impl_scale(case)
     if case['k'] == 's':
         snap = _snapshot()
         o = observe(case['s'])
@@ -498,7 +589,7 @@ def impl(case):
         n += 1
         ln = o['nc']
         h.update(ln.encode('ascii') + b'\n')
-        l_lex, l_ok = lex_line(s), eqre_line(s)
+        l_lex, l_ok = lex_line(s) or '', eqre_line(s) or ''
         h_lex.update(l_lex.encode('ascii') + b'\n')
         h_ok.update(l_ok.encode('ascii') + b'\n')
         if case.get('verbose'):
@@ -551,6 +642,12 @@ CORPUS = [
     '```\n(\n```\nY = X)', '```\nx``` \n```', '```\nx = 1\n```  # c', '```  # c\nx = 1\n```', '```#\nx = 1\n```',       # boundary cases of fences_clean / FI
     '```\nx = (1 +\r2)\n```', '```\nx = 1\ry = 2\n```', '```\rx = 1\r```', '```\r\nx = 1\r\n```', '```\nx = 1\x0cy = 2\n```', '```\nx = 1\x85y = 2\n```', '```\nx = 1\x0by = 2\n```',
     'Y = (X +\r Z)', 'Y = (X +\x0c Z)', 'Y = (X +\x85 Z)', 'Y = (X +\x1c Z)', '(Y =\r\n X)', '`x = 1\ry = 2`', 'Y = X\rZ = W', 'Y = X\x1dZ = W', 'Y = X\x1eZ = W',     # separators other than LF
+    'Y = {:4611686018427387904} + X', 'Y = {:99999999999} + X', 'Y = {0:4611686018427387904}', 'Y = {:.4611686018427387904}', 'Y = {:>9223372036854775808}',
+    'Y = {:5}', 'Y = {:>8} + X', 'Y = {!s}', 'Y = {!a}', 'Y = {!r} + X', 'Y = {!x}', 'Y = {0.upper}', 'Y = {0.x}', 'Y = {0[0]}', 'Y = {[0]} + X', 'Y = {0[99]}', 'Y = {0[a]}',
+    'Y = {:{}} + X', 'Y = {a} + {:3}', 'Y = {a:3}', 'Y = {a!r}', 'Y = {a.b}', 'Y = {a[0]}', 'Y = {:,}', 'Y = {:=}', 'Y = {:d}', 'Y = {:s}', 'Y = {:%}',     # the format hole: ParserError or fine, never foreign (51af71a)
+    'Y = (1 is 1) + canary_fn()', '`x = canary_fn() is 1`', 'Y = canary_fn() is 1', 'Y = "\\d" + canary_fn()', '`x = f() if 1 is 1 else 0`',    # a SyntaxWarning together with a call
+    'Y = X\u2028Z = W', 'Y = X\u2029Z = W', 'Y = X[\uff11]', 'Y = X[\u0661]', '\u3000Y = X', 'Y = \u03b1 + X', '\u03b1 = 1', 'Y = X \u2212 1', 'Y = {\u03b1}',     # outside Latin-1: oracle only
+    '```python\nx = 1\n```', '```py\n```',      # the info string becomes code
     'status = 1', 'Y = lags', 'Y = {check}', '`x = 1; from os import *`',                          # NEW: accepted but cannot be built / instantiated
     'Y = ' + '+'.join(['X'] * 3000), 'Y = ' + '-' * 6000 + 'X',                                   # RecursionError / MemoryError from compile(): ParserError since 74fa5fb (must still terminate within the watchdog)
     'Y = ' + '(' * 250 + 'X' + ')' * 250, 'Y = X[' + '1' * 5000 + ']',
@@ -590,6 +687,9 @@ def line_mutate(rng, s):
 
 def gen(rng, tier):
     cases = [{'k': 's', 's': s} for s in CORPUS]
+    for fam, (n1, n2) in SCALE_SIZES.items():
+        m = 1 if tier == 'quick' else 2          # thorough: twice the size (four times the time on the quadratic families)
+        cases.append({'k': 'scale', 'family': fam, 'n1': n1 * m, 'n2': n2 * m})
     # exhaustive part
     cases += [{'k': 'enum', 'len': L, 'prefix': ''} for L in (0, 1, 2)]
     cases += [{'k': 'enum', 'len': 3, 'prefix': a} for a in A]
@@ -628,7 +728,8 @@ def correspond(cases, obs, tag, tier):
     _K_DETAIL.clear()
     alpha_hex = pc.hx(''.join(A))
     enum_idx = [i for i, c in enumerate(cases) if c['k'] == 'enum' and obs[i] is not None and 'md5' in obs[i]]
-    s_idx = [i for i, c in enumerate(cases) if c['k'] == 's' and obs[i] is not None and 'nc' in obs[i]]
+    s_idx = [i for i, c in enumerate(cases) if c['k'] == 's' and obs[i] is not None and 'nc' in obs[i] and latin1(c['s'])]     # the model is Latin-1
+    pending = []        # (case index, detail) of disagreements that are tolerated iff the input lies EXACTLY in a kept finding's class
     # --- shards: digests first
     reqs = ['E %s %d %s' % (alpha_hex, cases[i]['len'], pc.hx(cases[i]['prefix'])) for i in enum_idx]
     ans, errs = pc.run_driver(reqs)
@@ -657,7 +758,7 @@ def correspond(cases, obs, tag, tier):
     if todo:
         # string-by-string comparison of the differing shards (PUnmodelled strings are skipped)
         vobs = dict(zip(todo, lib.run_impl(ID, [dict(cases[i], verbose=True) for i in todo], per_case_timeout=CASE_TIMEOUT)))
-        for cmd, key, what, filt in (('EV', 'lines', 'parse_model(check_syntax=False)', in_finding_class), ('ELV', 'lines_lex', 'term_re.finditer', lex_finding_class),
+        for cmd, key, what, filt in (('EV', 'lines', 'parse_model(check_syntax=False)', model_finding_class), ('ELV', 'lines_lex', 'term_re.finditer', lex_finding_class),
                                      ('EKV', 'lines_ok', 'equation_re.search', None)):
             sel = [i for i in todo if (i in differ if cmd == 'EV' else cmd[:2] in differ_c.get(i, ()))]
             if not sel:
@@ -671,7 +772,10 @@ def correspond(cases, obs, tag, tier):
                     errors.append('verbose re-run of shard %r failed' % (cases[i],))
                     continue
                 dis = [(s, r, m) for s, r, m in zip(_enum_strings(cases[i]), vo[key], mlines) if m != 'U' and m != r]
-                if filt is not None:
+                if filt is model_finding_class and dis:
+                    keep = model_finding_class([d[0] for d in dis])
+                    dis = [d for d, k_ in zip(dis, keep) if not k_]
+                elif filt is not None:
                     dis = [d for d in dis if not filt(d[0])]
                 if dis:
                     bad.append(i)
@@ -680,9 +784,9 @@ def correspond(cases, obs, tag, tier):
             return [], errors
     # --- single scripts: the components
     for cmd, key, what, filt in (('T', 'lex', 'term_re.finditer', lex_finding_class), ('K', 'eqre', 'equation_re.search', None),
-                                 ('S', 'split', 'split_equations_iter', in_finding_class),
+                                 ('S', 'split', 'split_equations_iter', None),
                                  ('M', 'mlines', 'str.splitlines + strip_comments (Split.model_lines)', None),
-                                 ('N', 'emit_nc', 'build_model_definition: number of equations / blocks emitted', in_finding_class)):
+                                 ('N', 'emit_nc', 'build_model_definition: number of equations / blocks emitted', model_finding_class)):
         idx = [i for i in s_idx if key in obs[i]]
         ans, errs = pc.run_driver(['%s %s' % (cmd, pc.hx(cases[i]['s'])) for i in idx])
         if errs:
@@ -693,17 +797,20 @@ def correspond(cases, obs, tag, tier):
                 m = ';'.join(st.split(',')[0] for st in body.split(';') if st) + '|' + err
             if m == 'U' or (cmd == 'N' and obs[i][key].startswith('B:')):
                 continue
-            if m != obs[i][key] and not (filt is not None and filt(cases[i]['s'])):
-                bad.append(i)
-                _K_DETAIL.setdefault(lib.jhash(cases[i]), []).append({'s': cases[i]['s'], 'impl': obs[i][key], 'model': m, 'component': what})
+            if m != obs[i][key]:
+                detail = {'s': cases[i]['s'], 'impl': obs[i][key], 'model': m, 'component': what}
+                if filt is model_finding_class:
+                    pending.append((i, detail))
+                elif not (filt is not None and filt(cases[i]['s'])):
+                    bad.append(i)
+                    _K_DETAIL.setdefault(lib.jhash(cases[i]), []).append(detail)
     # --- single scripts, check_syntax=False
     ans, errs = pc.run_driver(['P ' + pc.hx(cases[i]['s']) for i in s_idx])
     if errs:
         return [], errs
     for i, m in zip(s_idx, ans):
-        if m != 'U' and m != obs[i]['nc'] and not in_finding_class(cases[i]['s']):
-            bad.append(i)
-            _K_DETAIL[lib.jhash(cases[i])] =[{'s': cases[i]['s'], 'impl': obs[i]['nc'], 'model': m, 'check_syntax': False}]
+        if m != 'U' and m != obs[i]['nc']:
+            pending.append((i, {'s': cases[i]['s'], 'impl': obs[i]['nc'], 'model': m, 'check_syntax': False}))
     # --- single scripts, check_syntax=True: the oracle is tabulated from the real compile() on the codes the model generates
     ans, errs = pc.run_driver(['S ' + pc.hx(cases[i]['s']) for i in s_idx])
     if errs:
@@ -734,9 +841,15 @@ def correspond(cases, obs, tag, tier):
             agree = o['cs'] in ox_class.get(i, ())
         else:
             agree = (m == real)
-        if not agree and not in_finding_class(cases[i]['s']) and i not in bad:
-            bad.append(i)
-            _K_DETAIL[lib.jhash(cases[i])] =[{'s': cases[i]['s'], 'impl': real, 'model': m, 'check_syntax': True}]
+        if not agree:
+            pending.append((i, {'s': cases[i]['s'], 'impl': real, 'model': m, 'check_syntax': True}))
+    if pending:
+        idxs = sorted({i for i, _ in pending})
+        inclass = dict(zip(idxs, model_finding_class([cases[i]['s'] for i in idxs])))
+        for i, detail in pending:
+            if not inclass[i]:
+                bad.append(i)
+                _K_DETAIL.setdefault(lib.jhash(cases[i]), []).append(detail)
     order = sorted(set(bad), key=lambda i: (len(cases[i].get('s', '')), i))      # the shortest disagreeing script first
     return order, errors
 
@@ -745,14 +858,14 @@ def explain(case, obs):
     d = _K_DETAIL.get(lib.jhash(case))
     if d is not None:
         return {'first_disagreements': d}
-    if case['k'] == 's':
+    if case['k'] == 's' and latin1(case['s']):
         ans, errs = pc.run_driver(['P ' + pc.hx(case['s'])])
         return {'model(check_syntax=False)': (ans or errs)[0]}
     return None
 
 
 def guard(case, obs):
-    return False          # finding classes are filtered string by string inside correspond (in_finding_class)
+    return False          # finding classes are decided exactly, string by string, inside correspond (model_finding_class)
 
 
 # --------------------------------------------------------------------------- oracle, evidence helpers
@@ -760,6 +873,12 @@ def oracle(case, obs):
     fails = []
     if obs.get('timeout'):
         return [{'sig': 'C13|timeout', 'what': 'parse_model / build_model did not return within %d s on %s' % (CASE_TIMEOUT, json.dumps(case)[:120])}]
+    if case['k'] == 'scale':
+        if obs.get('superlinear'):
+            return [{'sig': 'C13|scaling|' + case['family'],
+                     'what': 'parse_model terminates, but its CPU time grows like size^%.1f on the family %r (%d characters: %d ms; sizes %d -> %d)'
+                             % ((obs.get('exponent_x10') or 0) / 10.0, case['family'], obs['len2'], obs['t2_ms'], obs['len1'], obs['len2'])}]
+        return []
     items = [(case['s'], obs)] if case['k'] == 's' else [(s, o) for s, o in obs.get('anomalies', [])]
     seen = set()
     for s, o in items:
@@ -768,11 +887,13 @@ def oracle(case, obs):
                 seen.add(sig)
                 fails.append({'sig': 'C13|' + sig, 'what': '%s — input %s' % (what, json.dumps(s)[:160])})
     if obs.get('side_effect'):
-        fails.append({'sig': 'C13|side-effect', 'what': 'process-global state changed while parsing / building: one of sys.modules, files in cwd, builtins, os.environ, warnings.filters, fsic module globals, open file descriptors, sys.path, recursion limit'})
+        fails.append({'sig': 'C13|side-effect', 'what': 'process-global state changed while parsing / building: one of files in cwd, builtins, os.environ, cwd, warnings.filters, names of the globals of fsic.parser, open file descriptors, sys.path, recursion limit'})
     return fails
 
 
 def nontrivial(case, obs):
+    if case['k'] == 'scale':
+        return obs.get('t2_ms', 0) >= 1
     if case['k'] == 's':
         return obs.get('cs') != 'ok' or obs.get('emitted', 0) >= 1
     cl = obs.get('classes', {})
@@ -784,11 +905,15 @@ def bucket(case, obs):
         return 'timeout'
     if case['k'] == 'enum':
         return 'enum/len%d' % case['len']
+    if case['k'] == 'scale':
+        return 'scale/' + ('superlinear' if obs.get('superlinear') else 'linear')
     c = obs.get('cs')
     return 'script/' + (c if c != 'ok' else ('accepted/%d-eq' % min(obs.get('emitted', 0), 3)))
 
 
 def shrink_candidates(case):
+    if case['k'] == 'scale':
+        return
     if case['k'] == 'enum':
         # one of the shard's strings carries the failure: narrow the prefix one symbol at a time, then the single script
         if len(case['prefix']) >= case['len']:
